@@ -152,6 +152,10 @@ def run_unit(ctx, unit):
         single = ctx.rng.choice(regions) if hasattr(ctx, "rng") else regions[0]
         sdata, _ = build(unit, True, only_gap=single)
         cases.append(("single/stderr", core.Case(["--on-error", "stderr"] + pargs, sdata)))
+        if 2 <= len(regions) <= 4 and len(noisy) < 3000:
+            # every region on its own: what is reported about a region does not depend on the regions before it
+            for g in regions:
+                cases.append(("only%d/stderr" % g, core.Case(["--on-error", "stderr"] + pargs, build(unit, True, only_gap=g)[0])))
         if len(noisy) < 5000 and (unit["wsseed"] & 3) == 0:
             # the same noisy stream given as a file: same rows, a report per region, failure under panic
             # the file's name shows up in every report: short, long, non-ASCII; sometimes the file is reached through a
@@ -242,6 +246,12 @@ def run_unit(ctx, unit):
         if o.result != "ok" or o.stdout != base.stdout or len(el) < 1:
             return bad("single-region-no-report", "a stream with only region %d inserted yields no error line" % single, "single/stderr")
         st.count("single_region_runs")
+    if regions and ("only%d/stderr" % regions[0]) in res:
+        per = [len([l for l in res["only%d/stderr" % g].stderr.split(b"\n") if l]) for g in regions]
+        total = len([l for l in res["noisy/stderr"].stderr.split(b"\n") if l])
+        if sum(per) != total:
+            return bad("reports-not-additive", "regions reported on their own: %s error lines, all regions in one stream: %d" % (per, total), "noisy/stderr")
+        st.count("additive_report_checks")
     if "file/stderr" in res:
         o = res["file/stderr"]
         el = [l for l in o.stderr.split(b"\n") if l]
